@@ -66,6 +66,8 @@ func configure(g *gen) {
 	add(FnSpec{Func: "isFixedPath", Lean: "isFixedPath"})
 	add(FnSpec{Func: "simpleFmtPath", Lean: "simpleFmtPath"})
 	add(FnSpec{Func: "quotePointChar", Lean: "quotePointChar"})
+	add(FnSpec{Func: "formatMethods", Lean: "formatMethods"})
+	add(FnSpec{Func: "formatMethodsWithDefault", Lean: "formatMethodsWithDefault"})
 	// router.go
 	add(FnSpec{Recv: "Router", Func: "formatPath", Lean: "Router.formatPath"})
 	// parse_match.go: the decision list of QuickMatch over abstract lookups.  `r.match`, `r.findAllowedMethods`
@@ -154,6 +156,9 @@ func configure(g *gen) {
 			// a fresh slice holding old ++ new (that it is fresh — no aliasing — is C12_no_alias' business)
 			{Callee: "combineHandlers", Value: "(%1 ++ %2)", T: T{"opaque", "List Nat"}},
 		}})
+	add(FnSpec{Recv: "Router", Func: "appendGroupInfo", Lean: "Router.appendGroupInfo", UseStructs: []string{"Route"},
+		MutParams: []string{"route"}, RetExtra: []string{"route"}, RetExtraT: []string{"Route"},
+		Exts: []Ext{{Callee: "combineHandlers", Value: "(%1 ++ %2)", T: T{"opaque", "List Nat"}}}})
 	add(FnSpec{Recv: "Router", Func: "Use", Lean: "Router.Use"})
 	add(FnSpec{Recv: "Route", Func: "Use", Lean: "Route.Use", UseStructs: []string{"Route"}})
 	add(FnSpec{Func: "isSupportedMethod", Lean: "isSupportedMethod"})
